@@ -62,6 +62,10 @@ def _gen_hand(rng, o):
         if nout > 1 and rng.randrange(100) < o["mismatch_pct"]:
             nyield = nout + rng.choice([-1, 1, 2]) if nout > 2 else nout + rng.choice([-1, 1])
         nodes.append(dict(name=f"n{i}", outs=outs, nout=nout, inputs=inputs, args=args, kwargs=kwargs, nyield=nyield))
+    if len(nodes) > 1 and rng.randrange(100) < o.get("dup_name_pct", 3):
+        # two distinct nodes under one name: lowering (node name = task id) must refuse, it can not be faithful
+        a, b = rng.sample(range(len(nodes)), 2)
+        nodes[b]["label"] = nodes[a]["name"]
     return dict(mode="hand", nodes=nodes)
 
 
@@ -118,7 +122,7 @@ def _build_hand(gp):
         for iname, p, out in nd["inputs"]:
             ins[iname] = built[p].get_output(out)
             used.add(p)
-        built.append(Node(nd["name"], outputs=list(nd["outs"]) if nd["outs"] is not None else None, payload=(f, args, dict(nd["kwargs"])), **ins))
+        built.append(Node(nd.get("label", nd["name"]), outputs=list(nd["outs"]) if nd["outs"] is not None else None, payload=(f, args, dict(nd["kwargs"])), **ins))
     sinks = [b for i, b in enumerate(built) if i not in used]
     return Graph(sinks)
 
@@ -164,6 +168,8 @@ def canonical_job(graph):
     job = graph2job(graph)
     tasks = dict(sorted(job.tasks.items()))
     edges = sorted(job.edges, key=lambda e: (e.sink_task, repr(e.source), str(e.sink_input_kw), str(e.sink_input_ps)))
+    import random
+    random.Random(len(edges) * 7919 + len(tasks)).shuffle(edges)      # edge order carries no meaning
     j2 = JobInstance(tasks=tasks, edges=edges)
     j2.ext_outputs = [DatasetId(t, o) for t in tasks for o in sorted(tasks[t].definition.output_schema)]
     return j2
@@ -222,10 +228,27 @@ def structural_violations(graph, job):
     return out
 
 
+class Refused(Exception):
+    """graph2job declined the graph (e.g. two nodes under one name): a legitimate outcome, nothing to run."""
+
+
 def materialise(gp):
     """-> (job, ref values keyed (task, output), info)"""
     graph = build_graph(gp)
-    job = canonical_job(graph)
+    names = [n.get("label", n["name"]) for n in gp.get("nodes", [])]
+    dup = len(names) != len(set(names))
+    try:
+        job = canonical_job(graph)
+    except AssertionError:
+        if dup:
+            raise Refused("duplicate node names")
+        raise
+    if dup:
+        # it lowered a graph in which two different nodes share a name: one of them is gone
+        from cascade.low.core import JobInstance
+        info = dict(expect_failure=False, failed={}, structural=[("two_nodes_lowered_to_one_task", (sorted(n for n in set(names) if names.count(n) > 1), len(names), len(job.tasks)))],
+                    unsorted_declared=[], dup_input_arg=[], max_outputs=0, nodes=len(names))
+        return JobInstance(tasks={}, edges=[]), {}, info
     vals, failed = ref_eval_graph(graph)
     nodes = list(graph.nodes())
     info = dict(expect_failure=bool(failed), failed=failed, structural=structural_violations(graph, job),
